@@ -4,6 +4,21 @@
 
 __thread vh_ctx_t *CTX = NULL;
 
+#ifdef M4RI_VERIF
+/* hook H0: called from the function-exit markers of the library (debug_dump.h) */
+extern void (*m4ri_verif_dd)(char const *function, int line);
+static void dd_callback(char const *function, int line) {
+  vh_ctx_t *c = CTX;
+  (void)line;
+  if (!c || !c->armed) return;       /* other (OpenMP) threads have no context */
+  for (int i = 0; i < c->nfns; i++)
+    if (c->fns[i] == function) return; /* __FUNCTION__ literals: pointer comparison is enough per call site */
+  for (int i = 0; i < c->nfns; i++)
+    if (!strcmp(c->fns[i], function)) return;
+  if (c->nfns < 48) c->fns[c->nfns++] = function;
+}
+#endif
+
 vh_ctx_t *vh_ctx_new(const char *path, uint64_t seed, int tid) {
   vh_ctx_t *c = (vh_ctx_t *)vh_xmalloc(sizeof(vh_ctx_t));
   memset(c, 0, sizeof(*c));
@@ -13,6 +28,9 @@ vh_ctx_t *vh_ctx_new(const char *path, uint64_t seed, int tid) {
   c->rng = seed * 0x9E3779B97F4A7C15ULL + 0x1234567ULL + (uint64_t)tid * 7919;
   c->tid = tid;
   CTX = c;
+#ifdef M4RI_VERIF
+  m4ri_verif_dd = dd_callback;
+#endif
   return c;
 }
 
@@ -272,7 +290,10 @@ void vh_post(vh_ev_t *e) {
   long expect = 0;
   for (int k = 0; k < e->no; k++)
     if (e->o[k].role == 'r' && e->o[k].M) expect += (e->o[k].M->data ? 2 : 1);
-  fprintf(c->f, "],\"leak\":%ld,\"case\":%ld}\n", vh_leakcheck ? e->dlive - expect : 0, c->curcase);
+  fprintf(c->f, "],\"leak\":%ld,\"case\":%ld,\"fn\":[", vh_leakcheck ? e->dlive - expect : 0, c->curcase);
+  for (int i = 0; i < c->nfns; i++) fprintf(c->f, "%s\"%s\"", i ? "," : "", c->fns[i]);
+  fputs("]}\n", c->f);
+  c->nfns = 0;
 }
 
 void vh_raw(const char *fmt, ...) {
